@@ -56,19 +56,17 @@ func newResolvedIdentity(m *Module, i *Identity) (string, *resolvedIdentity) {
 	return i.modulePrefixedName(), r
 }
 
-func appendIfNotIn(ids []*Identity, chk *Identity) []*Identity {
+// addChildren adds identity r and all of its children to ids
+// deterministically.  An identity that is already in ids has been visited (or
+// is being visited further up the call chain) and is not descended into
+// again, so the walk also terminates when the base statements form a cycle.
+func addChildren(r *Identity, ids []*Identity) []*Identity {
 	for _, id := range ids {
-		if id == chk {
+		if id == r {
 			return ids
 		}
 	}
-	return append(ids, chk)
-}
-
-// addChildren adds identity r and all of its children to ids
-// deterministically.
-func addChildren(r *Identity, ids []*Identity) []*Identity {
-	ids = appendIfNotIn(ids, r)
+	ids = append(ids, r)
 
 	// Iterate through the values of r.
 	for _, ch := range r.Values {
@@ -181,6 +179,13 @@ func (ms *Modules) resolveIdentities() []error {
 		newValues := []*Identity{}
 		for _, j := range i.Identity.Values {
 			newValues = addChildren(j, newValues)
+		}
+		for _, j := range newValues {
+			if j == i.Identity {
+				// The identity is among its own children.
+				errs = append(errs, fmt.Errorf("%s: identity %s is derived from itself: circular base statements", Source(i.Identity), i.Identity.Name))
+				break
+			}
 		}
 		sort.SliceStable(newValues, func(j, k int) bool {
 			return newValues[j].Name < newValues[k].Name
